@@ -3,8 +3,14 @@
 //   c19 replay <stream> <file>             re-run GEOS on the *input part* of each case line of <file>; prints "<case>\t<expect>" per line
 // Case line grammar (doubles = 16 hex digits):   lineset := k (n (x y)*n)*k
 //   linref      P lineset px py | I lineset d | N lineset f | S lineset f0 f1          expect = result bits
+//               X lineset a b   (C++ API LengthIndexedLine::extractLine, indices over the whole documented domain)
+//               C lineset a     (LengthIndexedLine::clampIndex + isValidIndex)
+//               G lineset d     (LengthLocationMap::getLocation(d) as component / segment / fraction, then getLength of it)
+//               F lineset px py (LineSegment::segmentFraction of the first segment of the first line for the point)
 //   oracle*     RT lineset | px py | qx qy        (q = Interpolate(Project(p)))          expect = ok
 //               IL lineset d | qx qy   ;   SL lineset f0 f1 | lineset(result)            expect = ok
+//               XL lineset a b | lineset(result)   (extractLine(a, b): the sub-line between the clamped indices)
+//               CL lineset a | clampIndex(a)       (negative = from the end, then clamped to [0, length])
 //   merge       M directed lineset | lineset(out)                                        expect = ok
 //   node*       N mode lineset | ok lineset(out)  /  | threw                             expect = ok / threw
 //   polygonize  Y mode valid lineset | npoly (lineset(rings))* | dangles | cuts | invalid expect = ok
@@ -22,6 +28,10 @@
 #include <geos/operation/linemerge/LineMerger.h>
 #include <geos/geom/Geometry.h>
 #include <geos/geom/LineString.h>
+#include <geos/linearref/LengthIndexedLine.h>
+#include <geos/linearref/LengthLocationMap.h>
+#include <geos/linearref/LinearLocation.h>
+#include <geos/geom/LineSegment.h>
 
 using namespace vh;
 
@@ -100,7 +110,7 @@ static std::string showPoint(GEOSGeometry* pt) {
 }
 
 static CE runLinref(const std::string& op, const LineSet& ls, bool multi, double a, double b) {
-    { LASTIN = op + " " + tokSet(ls) + " " + hex(a) + ((op == "P" || op == "S") ? " " + hex(b) : std::string()); } if (DRY) { CE r; r.c = LASTIN; r.e = "dry"; return r; }
+    { LASTIN = op + " " + tokSet(ls) + " " + hex(a) + ((op == "P" || op == "S" || op == "X" || op == "F") ? " " + hex(b) : std::string()); } if (DRY) { CE r; r.c = LASTIN; r.e = "dry"; return r; }
     GEOSGeometry* g = mkLineal(ls, multi);
     CE r; r.c = op + " " + tokSet(ls);
     if (op == "P") {
@@ -112,6 +122,27 @@ static CE runLinref(const std::string& op, const LineSet& ls, bool multi, double
         r.c += " " + hex(a); r.e = showPoint(GEOSInterpolate_r(H, g, a));
     } else if (op == "N") {
         r.c += " " + hex(a); r.e = showPoint(GEOSInterpolateNormalized_r(H, g, a));
+    } else if (op == "X") {
+        r.c += " " + hex(a) + " " + hex(b);
+        try {
+            geos::linearref::LengthIndexedLine lil(reinterpret_cast<const geos::geom::Geometry*>(g));
+            std::unique_ptr<geos::geom::Geometry> s = lil.extractLine(a, b);
+            LineSet out; collectLines(reinterpret_cast<const GEOSGeometry*>(s.get()), out); r.e = tokSet(out);
+        } catch (std::exception&) { r.e = "err"; }
+    } else if (op == "G") {
+        r.c += " " + hex(a);
+        const geos::geom::Geometry* gg = reinterpret_cast<const geos::geom::Geometry*>(g);
+        geos::linearref::LinearLocation loc = geos::linearref::LengthLocationMap::getLocation(gg, a);
+        double len = geos::linearref::LengthLocationMap::getLength(gg, loc);
+        r.e = std::to_string(loc.getComponentIndex()) + " " + std::to_string(loc.getSegmentIndex()) + " " + hex(loc.getSegmentFraction()) + " " + hex(len);
+    } else if (op == "F") {
+        r.c += " " + hex(a) + " " + hex(b);
+        geos::geom::LineSegment seg(geos::geom::Coordinate(ls[0][0].first, ls[0][0].second), geos::geom::Coordinate(ls[0][1].first, ls[0][1].second));
+        r.e = hex(seg.segmentFraction(geos::geom::Coordinate(a, b)));
+    } else if (op == "C") {
+        r.c += " " + hex(a);
+        geos::linearref::LengthIndexedLine lil(reinterpret_cast<const geos::geom::Geometry*>(g));
+        r.e = hex(lil.clampIndex(a)) + " " + (lil.isValidIndex(a) ? "1" : "0");
     } else { // S
         r.c += " " + hex(a) + " " + hex(b);
         GEOSGeometry* s = GEOSLineSubstring_r(H, g, a, b);
@@ -148,6 +179,26 @@ static CE runSubstringOracle(const LineSet& ls, bool multi, double f0, double f1
     GEOSGeometry* s = GEOSLineSubstring_r(H, g, f0, f1);
     LineSet out; if (s) { collectLines(s, out); GEOSGeom_destroy_r(H, s); }
     CE r; r.c = "SL " + tokSet(ls) + " " + hex(f0) + " " + hex(f1) + " | " + tokSet(out); r.e = "ok";
+    GEOSGeom_destroy_r(H, g); return r;
+}
+
+static CE runExtractOracle(const LineSet& ls, bool multi, double a, double b) {
+    { LASTIN = "XL " + tokSet(ls) + " " + hex(a) + " " + hex(b); } if (DRY) { CE r; r.c = LASTIN; r.e = "dry"; return r; }
+    GEOSGeometry* g = mkLineal(ls, multi);
+    LineSet out; std::string st = "ok";
+    try {
+        geos::linearref::LengthIndexedLine lil(reinterpret_cast<const geos::geom::Geometry*>(g));
+        std::unique_ptr<geos::geom::Geometry> s = lil.extractLine(a, b);
+        collectLines(reinterpret_cast<const GEOSGeometry*>(s.get()), out);
+    } catch (std::exception&) { st = "threw"; }
+    CE r; r.c = "XL " + tokSet(ls) + " " + hex(a) + " " + hex(b) + " | " + st + " " + tokSet(out); r.e = "ok";
+    GEOSGeom_destroy_r(H, g); return r;
+}
+static CE runClampOracle(const LineSet& ls, bool multi, double a) {
+    { LASTIN = "CL " + tokSet(ls) + " " + hex(a); } if (DRY) { CE r; r.c = LASTIN; r.e = "dry"; return r; }
+    GEOSGeometry* g = mkLineal(ls, multi);
+    geos::linearref::LengthIndexedLine lil(reinterpret_cast<const geos::geom::Geometry*>(g));
+    CE r; r.c = "CL " + tokSet(ls) + " " + hex(a) + " | " + hex(lil.clampIndex(a)); r.e = "ok";
     GEOSGeom_destroy_r(H, g); return r;
 }
 
@@ -276,6 +327,17 @@ struct Gen {
             default: out.count("lr_d_inside"); return L * r.unit();
         }
     }
+    // an index of LengthIndexedLine from its whole documented domain: negative = measured from the end, out of range = clamped
+    double lrIndex(const LineSet& ls) {
+        double L = lenOf(ls);
+        switch (r.below(8)) {
+            case 0: out.count("lr_i_neg_between_L_2L"); return -L * (1 + r.unit());
+            case 1: out.count("lr_i_neg_beyond_2L"); return -L * (2 + 3 * r.unit()) - r.unit();
+            case 2: out.count("lr_i_pos_beyond_2L"); return L * (2 + 3 * r.unit()) + r.unit();
+            case 3: out.count("lr_i_exact_multiple"); { double m[] = {-2, -1, 1, 2}; return L * m[r.below(4)]; }
+            default: return lrDistance(ls);
+        }
+    }
     double lrFraction(const LineSet& ls) {
         double L = lenOf(ls);
         switch (r.below(10)) {
@@ -296,7 +358,13 @@ struct Gen {
     }
     CE linref() {
         bool multi; LineSet ls = lrGeom(multi, true);
-        switch (r.below(5)) {
+        switch (r.below(9)) {
+            case 7: out.count("op_location_length"); return runLinref("G", ls, multi, lrIndex(ls), 0);
+            case 8: { out.count("op_segment_fraction"); XY p = lrPoint(ls); if (r.chance(30)) { p.first = std::round(p.first); p.second = std::round(p.second); } return runLinref("F", ls, multi, p.first, p.second); }
+            case 5: { out.count("op_extract_line"); double a = lrIndex(ls), b = lrIndex(ls); if (r.chance(12)) b = a;
+                if (a == b) out.count("lr_x_zero_length"); else if (a > b) out.count("lr_x_reversed");
+                return runLinref("X", ls, multi, a, b); }
+            case 6: out.count("op_clamp_index"); return runLinref("C", ls, multi, lrIndex(ls), 0);
             case 0: { out.count("op_project"); XY p = lrPoint(ls); if (r.chance(30)) { p.first = std::round(p.first); p.second = std::round(p.second); } return runLinref("P", ls, multi, p.first, p.second); }
             case 1: out.count("op_interpolate"); return runLinref("I", ls, multi, lrDistance(ls), 0);
             case 2: { out.count("op_interpolate_norm"); double f = lrFraction(ls); if (r.chance(20)) f = f * 3 - 1; return runLinref("N", ls, multi, f, 0); }
@@ -315,7 +383,9 @@ struct Gen {
             LineSet w = {{{0, 0}, {4, 0}}, {{8, 3}, {12, 3}}}; return runRoundtrip(w, true, 8, 0); }
         bool m; LineSet ls = lrGeom(m, true);
         if (multi) { if (ls.size() < 2) ls.push_back(gridLine(r.range(2, 4), 100)); XY p = lrPoint(ls); out.count("oracle_roundtrip_multi"); return runRoundtrip(ls, true, p.first, p.second); }
-        switch (r.below(3)) {
+        switch (r.below(5)) {
+            case 3: { out.count("oracle_extract_line"); double a = lrIndex(ls), b = lrIndex(ls); if (r.chance(12)) b = a; return runExtractOracle(ls, m, a, b); }
+            case 4: { out.count("oracle_clamp_index"); return runClampOracle(ls, m, lrIndex(ls)); }
             case 0: { out.count("oracle_roundtrip"); LineSet one; one.push_back(ls[0]); XY p = lrPoint(one); return runRoundtrip(one, false, p.first, p.second); }
             case 1: { out.count("oracle_interpolate"); return runInterpOracle(ls, m, lrDistance(ls)); }
             default: { out.count("oracle_substring"); double a = std::min(1.0, lrFraction(ls)), b = std::min(1.0, lrFraction(ls)); if (r.chance(15)) b = a; return runSubstringOracle(ls, m, a, b); }
@@ -494,11 +564,13 @@ struct Gen {
 
 static CE replayLine(const std::string& stream, const std::string& line) {
     Tk tk(line); std::string op = tk.next();
-    if (stream == "linref") { LineSet ls = tk.lineset(); double a = tk.dbl(); double b = (op == "P" || op == "S") ? tk.dbl() : 0; return runLinref(op, ls, ls.size() > 1, a, b); }
+    if (stream == "linref") { LineSet ls = tk.lineset(); double a = tk.dbl(); double b = (op == "P" || op == "S" || op == "X" || op == "F") ? tk.dbl() : 0; return runLinref(op, ls, ls.size() > 1, a, b); }
     if (stream == "oracle" || stream == "oracle_multi") {
         LineSet ls = tk.lineset();
         if (op == "RT") { tk.bar(); double px = tk.dbl(), py = tk.dbl(); return runRoundtrip(ls, ls.size() > 1, px, py); }
         if (op == "IL") { double d = tk.dbl(); return runInterpOracle(ls, ls.size() > 1, d); }
+        if (op == "XL") { double a = tk.dbl(), b = tk.dbl(); return runExtractOracle(ls, ls.size() > 1, a, b); }
+        if (op == "CL") { double a = tk.dbl(); return runClampOracle(ls, ls.size() > 1, a); }
         double a = tk.dbl(), b = tk.dbl(); return runSubstringOracle(ls, ls.size() > 1, a, b); }
     if (stream == "merge") { bool d = tk.next() == "1"; LineSet ls = tk.lineset(); return runMerge(d, ls); }
     if (stream == "node" || stream == "node_fp") { std::string mode = tk.next(); LineSet ls = tk.lineset(); return runNode(mode, ls); }
